@@ -557,11 +557,13 @@ def tolerances(inp):
     else:
         face_scale = 1.0
     rel = max(1e-9, max(eps[k] / L[k] for k in range(3)) * 10)
+    relc = max(4096 * u * M[k] / L[k] for k in range(3)) * 10      # the same without the 1e-9 floor: pure rounding / conditioning
     # conditioning: a bisector between generators at distance delta is known only up to a relative
     # direction error u*M/delta; close pairs (clusters) make every derived quantity that ill-conditioned
     sep = min_separation(inp)
     if sep is not None and sep > 0:
         mm = max(max(M[k] for k in range(dim)), max(L[k] for k in range(dim)))
         rel = max(rel, 4096 * u * mm / sep * 10)
-    return {"eps": eps, "vol": vol, "vol_tol": vol * rel, "face_scale": face_scale, "area_tol": face_scale * rel,
+        relc = max(relc, 4096 * u * mm / sep * 10)
+    return {"relc": relc, "eps": eps, "vol": vol, "vol_tol": vol * rel, "face_scale": face_scale, "area_tol": face_scale * rel,
             "area_min": 1e-9 * face_scale, "rel": rel, "L": L}
